@@ -25,7 +25,16 @@ type Item struct {
 	K     string  `json:"k"`               // eintr | eagain | fail | nothing | raw
 	Raw   string  `json:"raw,omitempty"`   // hex of the datagram
 	Patch *uint32 `json:"patch,omitempty"` // overwrite the header's sequence field with own+Patch
+	Errno int32   `json:"errno,omitempty"` // fail: the hard failure is this errno (0: an error that is no errno)
 }
+
+// RecvErr is a hard receive failure that carries an errno (ENOBUFS after a receive-buffer overrun, EIO, EBADF, …). It
+// unwraps to the errno, so the library sees what it would see from recvfrom; the harness tells it from an errno in an
+// acknowledgement by its type.
+type RecvErr struct{ Errno syscall.Errno }
+
+func (e *RecvErr) Error() string { return "recvfrom: " + e.Errno.Error() }
+func (e *RecvErr) Unwrap() error { return e.Errno }
 
 // Plan is the simulated kernel's reaction to one request.
 type Plan struct {
@@ -51,8 +60,9 @@ type Sent struct {
 
 // Resolved is a queue entry.
 type Resolved struct {
-	K   string
-	Raw []byte
+	K     string
+	Raw   []byte
+	Errno int32
 }
 
 // RecvRec records one Receive call.
@@ -114,7 +124,7 @@ func (s *Sim) Enqueue(items []Item) {
 
 // Resolve turns a planned item into a queue entry for request sequence own.
 func Resolve(it Item, own uint32) Resolved {
-	r := Resolved{K: it.K}
+	r := Resolved{K: it.K, Errno: it.Errno}
 	if it.K == "raw" {
 		b, err := hex.DecodeString(it.Raw)
 		if err != nil {
@@ -179,6 +189,12 @@ func (s *Sim) Receive(nonBlocking bool, p libaudit.NetlinkParser) ([]syscall.Net
 		}
 		return nil, syscall.EAGAIN
 	case "fail":
+		if it.Errno != 0 {
+			if s.WrapErrno {
+				return nil, fmt.Errorf("receive: %w", &RecvErr{syscall.Errno(it.Errno)})
+			}
+			return nil, &RecvErr{syscall.Errno(it.Errno)}
+		}
 		return nil, &Err{"receive failed"}
 	case "nothing":
 		return []syscall.NetlinkMessage{}, nil
